@@ -180,7 +180,8 @@ def check_all():
 
 # The module the calling code lives in is part of the input: stackscope recognises its own frames by module name, and
 # a caller's module may be called anything (also something that merely starts with the same letters).
-MODNAMES = [None, "stackscope_helpers", "stackscopic.inner", "my.stackscope", "stackscope_tests_support"]
+# (the last one: a module whose globals have no usable __name__ - code run through exec() with a namespace of its own)
+MODNAMES = [None, "stackscope_helpers", "stackscopic.inner", "my.stackscope", "stackscope_tests_support", "!noname"]
 _CLONES = {}
 
 
@@ -189,9 +190,11 @@ def clone(name):
     mod = _CLONES.get(name)
     if mod is None:
         import importlib.util
-        spec = importlib.util.spec_from_file_location(name, __file__)
+        spec = importlib.util.spec_from_file_location("c04_noname" if name == "!noname" else name, __file__)
         mod = importlib.util.module_from_spec(spec)
         spec.loader.exec_module(mod)
+        if name == "!noname":
+            mod.__dict__["__name__"] = None
         _CLONES[name] = mod
     return mod
 
